@@ -257,7 +257,8 @@ Definition apply_fn (id : nat) (x : list cell) : aresult :=
   | 11%nat => RAny (x ++ [CS s_k])                    (* a longer slice *)
   | 12%nat => RInts (map Z.of_nat (seq 0 (Nat.div2 (length x))))     (* a shorter []int *)
   | 13%nat => RStrs (map (fun _ => s_k) x ++ [s_k])                  (* a longer []string *)
-  | 14%nat => match x with CNil :: _ => RNilRes | _ => RAny (rev x) end  (* nil for some rows, a slice for the others *)
+  | 14%nat => match x with CNil :: _ => RSingle (CS s_k) | _ => RAny (rev x) end  (* a single value for some rows, a slice for the others *)
+  | 15%nat => RAny x          (* appends to its argument (into spare capacity only) and returns the original cells *)
   | _ => RAny (map (fun c => match c with CS _ => CNil | _ => c end) x)
   end.
 (* the functions of the menu that return as many cells as they receive (all but 10-13) *)
@@ -479,6 +480,8 @@ Definition resample_fn (id : nat) (x : list cell) : cell :=
   | 1%nat => match x with c :: _ => c | [] => CNil end
   | 2%nat => last x CNil
   | 3%nat => CI KInt (fold_left (fun s c => match c with CI _ z => s + z | _ => s end) x 0)
+  | 5%nat => last x CNil        (* reverses its argument in place and returns the new first cell: the argument is the
+                                   function's own, whatever it does to it must not show anywhere else *)
   | _ => CS (show_cells x)     (* identity: the harness prints the returned slice with %v *)
   end.
 Definition time_of (c : cell) : option (list Z) := match c with CT t => Some t | _ => None end.
